@@ -1464,11 +1464,16 @@ impl World {
                         _ if ran[n] => results[n] == Some(*new),
                         _ => refs[n] == Some(*new) || self.lossy,
                     };
-                    let old_ok = match (&info.kind, tr.cached) {
-                        (_, Some(Some(c))) if !self.lossy => c == *old,
-                        _ => true,
+                    // function nodes: the previous result is known exactly from the log; other nodes:
+                    // the value the engine last held for them, when that could be followed
+                    let old_ok = if is_fn_node(&info.kind) {
+                        tr.last_result.map_or(true, |p| p == *old)
+                    } else {
+                        match tr.cached {
+                            Some(Some(c)) if !self.lossy => c == *old,
+                            _ => true,
+                        }
                     };
-                    let old_ok = old_ok && (tr.last_result.is_none() || !matches!(info.kind, Kind::Map(..) | Kind::Map2(..) | Kind::MapN(..) | Kind::Fold(..) | Kind::MapP(..)) || tr.last_result == Some(*old));
                     if !new_ok || !old_ok {
                         problems.push(("C06", format!(
                             "cutoff of n{n} ({}) consulted with (old={:?}, new={:?}) in round {k}; previous result {:?} / cached {:?}, new result {:?}",
